@@ -238,7 +238,10 @@ class BptkServer(Flask):
             if self._bearer_token is not None:
                 token = None
                 if "Authorization" in request.headers:
-                    token = request.headers["Authorization"].split(" ")[1]
+                    # accept exactly "Bearer <token>": scheme and nothing after the credential
+                    parts = request.headers["Authorization"].split(" ")
+                    if len(parts) == 2 and parts[0] == "Bearer":
+                        token = parts[1]
 
                 if token is None:
                     resp = make_response('{"Unauthorized": "Authentication Token is missing!"}', 401)
